@@ -1048,5 +1048,8 @@ KILLS = [
     "randomize-int16 survives, as expected",
     "reseed: mask taken from s[-5:-3] -> escaped.IndexError@randomiser.py:reseed (singles) and "
     "randomize.state (doubles)",
+    "rnd_: is_negative() tested before is_zero() (a zero with the sign bit set reseeds) -> "
+    "rnd0.value in zero-encodings, history and reseed-sampled (survived before negated / dirty zero "
+    "arguments were generated)",
     "(hyp units were run at VERIF_SCALE=0.06, i.e. 15 / 7 examples per shard, and still killed)",
 ]
